@@ -233,7 +233,7 @@ def cases(tier, rng):
     for b in range(256): yield 'crc.crc32 %s' % hx(bytes([b])), 'crc.crc32-1byte'
     for n in range(0, 130 if q else 600):
         for _ in range(3 if q else 6): yield 'crc.crc32 %s' % hx(rbytes(rng, n)), 'crc.crc32'
-    for n in (255, 256, 257, 1000, 4096) + (() if q else (10000, 65537)):
+    for n in (255, 256, 257, 1000, 4096, 65536) + (() if q else (10000, 65535, 65537, 131072)):
         yield 'crc.crc32 %s' % hx(rbytes(rng, n)), 'crc.crc32-long'
     # ---- generic CRC: catalogued polynomials, every width 8..64 (random polynomials), narrow widths for the tie
     polys = list(KNOWN_POLYS)
